@@ -272,9 +272,13 @@ def gen_wv_dt(ctx, rng, nrand):
         octs = wv_pack(2001, 10, 19, 9, 50, 31, z)
         if z in ZONES:
             cs.append(Case("P", "dwvdt " + hx(octs), ("value", (2001, 10, 19, 9, 50, 31, bytes([z]))), "wv_dt_dec_zone"))
+        elif z == 0:
+            cs.append(Case("P", "dwvdt " + hx(octs), None, "wv_dt_dec_zone_octet_0"))     # the C's choice: 'Z' (correspondence only)
         else:
-            cs.append(Case("P", "dwvdt " + hx(octs), None, "wv_dt_dec_invalid_zone"))
-        cs.append(Case("P", "dwvdt " + hx(wv_pack(2001, 10, 19, 9, 50, 0, z)), None, "wv_dt_dec_zone_noseconds"))
+            # an octet that is no zone designator ('J' included) must not appear as one in the text
+            cs.append(Case("P", "dwvdt " + hx(octs), ("value", (2001, 10, 19, 9, 50, 31, b"")), "wv_dt_dec_invalid_zone"))
+        cs.append(Case("P", "dwvdt " + hx(wv_pack(2001, 10, 19, 9, 50, 0, z)),
+                       ("value", (2001, 10, 19, 9, 50, 0, bytes([z]) if z in ZONES else b"")) if z else None, "wv_dt_dec_zone_noseconds"))
     # texts outside the domain: zone J, no zone, wrong shapes (correspondence only; J must be refused)
     base = b"20011019T095031"
     cs.append(Case("E", "ewvdt " + hx(base + b"J"), "err WV_DATETIME_FORMAT", "wv_dt_zone_J"))
@@ -402,13 +406,15 @@ def wv_elem(page, tok, content):
 
 
 def doc_cases(exp_xml_tail, lang, wbxml, xml=None, force=0, w2w=True, kind="doc"):
-    """the three directions of one minimal document; expectations are suffixes (the prologue is not C12's business)"""
+    """the three directions of one minimal document; expectations are suffixes (the XML prologue and the WBXML header
+    — version, public id, charset, string table — are not C12's business)"""
     o = exp_xml_tail if isinstance(exp_xml_tail, tuple) else ("xml_tail", exp_xml_tail)
+    body = wbxml[len(HDR[lang]):]
     cs = [Case("P", "w2x %d %s" % (force, hx(wbxml)), o, kind + "_w2x", model=False)]
     if xml is not None:
-        cs.append(Case("P", "x2w " + hx(xml), ("bytes", wbxml), kind + "_x2w", model=False))
+        cs.append(Case("P", "x2w " + hx(xml), ("bytes_tail", body), kind + "_x2w", model=False))
     if w2w:
-        cs.append(Case("P", "w2w %d %s" % (force, hx(wbxml)), ("bytes", wbxml), kind + "_w2w", model=False))
+        cs.append(Case("P", "w2w %d %s" % (force, hx(wbxml)), ("bytes_tail", body), kind + "_w2w", model=False))
     return cs
 
 
@@ -486,12 +492,21 @@ def gen_docs(ctx, rng, n):
         if i % 4 == 0 and len(t) > 8:
             folded = "\n  " + t[:5] + "\n  " + t[5:] + "\n"
             tail2 = '<%s xmlns="%s"><%s%s>%s</%s></%s>' % (root, rns, name, (' xmlns="%s"' % ns) if ns else "", folded, name, root)
-            cs.append(Case("P", "x2w " + hx(xml_doc(lang, tail2)), ("bytes", w), "doc_binary_tag_folded", model=False))
+            cs.append(Case("P", "x2w " + hx(xml_doc(lang, tail2)), ("bytes_tail", w[len(HDR[lang]):]), "doc_binary_tag_folded", model=False))
     return cs
 
 
 # ------------------------------------------------------------------------------------------
 # judging
+
+def jn(x):
+    """JSON form of an oracle (bytes -> "hex:..", tuples -> lists)"""
+    if isinstance(x, (tuple, list)):
+        return [jn(y) for y in x]
+    if isinstance(x, bytes):
+        return "hex:" + x.hex()
+    return x
+
 
 def judge(c, ans):
     """None = fine; str = why the C's answer violates the oracle"""
@@ -519,6 +534,8 @@ def judge(c, ans):
         return None if m and wv_value(m.group(1)) == o[2] else "XML date-time does not denote %r" % (o[2],)
     if tag == "bytes":
         return None if body == o[1] else "expected wbxml " + o[1].hex()[:200]
+    if tag == "bytes_tail":
+        return None if body.endswith(o[1]) and len(body) > len(o[1]) else "expected wbxml ending in " + o[1].hex()[:200]
     return "bad oracle"
 
 
@@ -647,7 +664,7 @@ def run(ctx):
     driver = common.build_driver("C12")
 
     quick = ctx.tier == "quick"
-    nrand = 6000 if quick else 40000
+    nrand = 6000 if quick else 20000
     rng = Rng(ctx.seed, 12)
     cases = []
     corpus = os.path.join(common.VERIF, "corpus", "C12.txt")
@@ -670,10 +687,15 @@ def run(ctx):
     if getattr(ctx, "replay", None):
         rp = json.load(open(ctx.replay))
         if "input" in rp and "exe" in rp:
+            def unj(x):
+                if isinstance(x, list):
+                    return tuple(unj(y) for y in x)
+                if isinstance(x, str) and x.startswith("hex:"):
+                    return bytes.fromhex(x[4:])
+                return x
             o = rp.get("oracle")
-            if isinstance(o, list):
-                o = tuple(bytes.fromhex(x[4:]) if isinstance(x, str) and x.startswith("hex:") else (tuple(x) if isinstance(x, list) else x) for x in o)
-            cases = [Case(rp["exe"], rp["input"], o, rp.get("kind", "replay"), model=rp.get("model", True))]
+            o = unj(o) if isinstance(o, list) else o
+            cases = [Case(rp["exe"], rp["input"], o, rp.get("kind", "replay"), model=rp.get("model", True), meta=unj(rp.get("meta")))]
 
     # ---- run: C (two programs) and model -------------------------------------------------------
     idx = {"P": [i for i, c in enumerate(cases) if c.exe == "P"], "E": [i for i, c in enumerate(cases) if c.exe == "E"]}
@@ -708,8 +730,7 @@ def run(ctx):
         why = judge(c, ca)
         if why:
             concrete.append({"exe": c.exe, "input": c.line, "c": ca, "why": why, "kind": c.kind, "model": c.model,
-                             "oracle": c.oracle if isinstance(c.oracle, (str, type(None))) else
-                             ["hex:" + x.hex() if isinstance(x, bytes) else x for x in c.oracle]})
+                             "oracle": jn(c.oracle), "meta": jn(c.meta)})
         if c.model and ca != ma:
             soft = (ca or "").startswith("err") and (ma or "").startswith("err")
             if not soft:
@@ -744,7 +765,7 @@ def run(ctx):
             nm = names.get(c.meta, "-")
             want = (lang == L_SI and page == 0 and nm in ("created", "si-expires")) or (lang == L_EMN and page == 0 and nm == "timestamp")
         if typed != want:
-            disp_bad.append({"exe": c.exe, "input": c.line, "c": cans[i], "kind": c.kind, "model": True,
+            disp_bad.append({"exe": c.exe, "input": c.line, "c": cans[i], "kind": c.kind, "model": True, "meta": jn(c.meta),
                              "why": "typed handling %s for table name %r" % ("applied" if typed else "missing", names.get(c.meta)), "oracle": None})
     concrete += disp_bad
 
